@@ -8,6 +8,7 @@ CONSTANTS
   OtherPeer = FALSE
   ClearOnAnyDisconnect = FALSE
   SeqCallers = FALSE
+  GhostCallers = {}
   PeerMayClose = TRUE
   LeakIfGoneAtTimeout = TRUE
   RemoveOnTimeout = TRUE
